@@ -2,7 +2,9 @@ package termemu
 
 import (
 	"errors"
+	"fmt"
 	"io"
+	"math"
 	"os"
 	"os/exec"
 	"strings"
@@ -87,11 +89,16 @@ func (p *PTYBackend) SetSize(w, h int) error {
 	if p.master == nil {
 		return nil
 	}
+	// A window size holds 16-bit values. A size that does not fit is an
+	// error, not some other size (65616 columns used to arrive as 80).
+	if w < 0 || h < 0 || w > math.MaxUint16 || h > math.MaxUint16 {
+		return fmt.Errorf("termemu: size %dx%d does not fit a pty window size", w, h)
+	}
 	return pty.Setsize(p.master, &pty.Winsize{
 		Rows: uint16(h),
 		Cols: uint16(w),
-		X:    uint16(w * 8),
-		Y:    uint16(h * 16),
+		X:    uint16(min(w*8, math.MaxUint16)),
+		Y:    uint16(min(h*16, math.MaxUint16)),
 	})
 }
 
